@@ -260,6 +260,31 @@ class Run:
         (values only the running implementation knows, e.g. the descriptor numbers its RNG handed out): it is
         stripped from the compared output and appended to the model's command."""
         raw = self.run_impl(cmds, timeout)
+        if self.cfg.get("two_run"):
+            # C20: a second, independent execution of the same commands in a fresh process whose RNG, hash seeds and
+            # allocator state are additionally perturbed by a throw-away machine in front of every case
+            junk = ["new 90c3 1000 1000", "step", "regs", "trace"]
+            cmds2, owner = [], []
+            for k, c in enumerate(cmds):
+                if c.startswith("new ") or c == "new":
+                    for j in junk:
+                        cmds2.append(j)
+                        owner.append(None)
+                cmds2.append(c)
+                owner.append(k)
+            raw2_all = self.run_side([self.axh, "exec"], cmds2, timeout)
+            raw2 = {}
+            for o, k in zip(raw2_all, owner):
+                if k is not None:
+                    raw2[k] = o
+            strip = lambda o: o.split(" @", 1)[0] if o is not None else o
+            for k in range(len(raw)):
+                a, b = raw[k], raw2.get(k)
+                if b is None or a == "skipped" or b == "skipped":
+                    continue
+                if strip(a) != strip(b):
+                    raw[k] = f"nondeterministic run1=[{strip(a)}] run2=[{strip(b)}]"
+            raw = [re.sub(r" msg=[0-9a-f]{16}", "", o) for o in raw]
         impl, mcmds = [], []
         for i, c in enumerate(cmds):
             o = raw[i] if i < len(raw) else None
